@@ -87,7 +87,7 @@ func MustRat(s string) *big.Rat {
 	}
 	r, ok := ParseRat(s)
 	if !ok {
-		panic(fmt.Sprintf("unparsable stored amount %q", s))
+		panic(fmt.Sprintf("harness: unparsable amount %q (accepted by the code, not by the reference parser)", s))
 	}
 	return r
 }
